@@ -95,3 +95,32 @@ extern "C" int h_ref_rhs(unsigned d, unsigned mask, double* rho, double* hi, dou
     return 0;
   }catch(...){ return 1; }
 }
+
+#ifndef VERIF_SYMBOLIC
+// ---- validation of the driver stub's contract against the REAL GSL driver (native build only): the first callback of every integration call
+// reads the user's state array, an output buffer is never the input buffer, times stay inside the integration interval
+#include <gsl/gsl_odeiv2.h>
+#include <gsl/gsl_errno.h>
+namespace { struct Rec { const double* y; bool fresh; unsigned calls, first_not_y, out_is_in, out_is_y; double tlo, thi, a, b; unsigned t_outside; }; }
+static int rec_rhs(double t, const double y[], double f[], void* p){
+  Rec* r=static_cast<Rec*>(p);
+  if(r->fresh){ if(y!=r->y) r->first_not_y++; r->fresh=false; }
+  r->calls++; if(y==f) r->out_is_in++; if(f==r->y) r->out_is_y++;
+  if(t<r->a-1e-12 || t>r->b+1e-12) r->t_outside++;
+  f[0]=-y[1]; f[1]=y[0]; return GSL_SUCCESS;
+}
+extern "C" int h_gsl_contract(unsigned stepper, unsigned adaptive, double* res){
+  const gsl_odeiv2_step_type* tab[6]={gsl_odeiv2_step_rk2,gsl_odeiv2_step_rk4,gsl_odeiv2_step_rkf45,gsl_odeiv2_step_rkck,gsl_odeiv2_step_rk8pd,gsl_odeiv2_step_msadams};
+  Rec r{}; double y[2]={1.0,0.0}; double t=0.0;
+  gsl_odeiv2_system sys={rec_rhs,nullptr,2,&r};
+  gsl_odeiv2_driver* d=gsl_odeiv2_driver_alloc_y_new(&sys,tab[stepper%6],1e-3,adaptive?1e-9:1e-2,adaptive?1e-9:1e-2);
+  int rc=0;
+  for(int k=0;k<3 && rc==0;k++){
+    r.y=y; r.fresh=true; r.a=t; r.b=t+0.5;
+    rc = adaptive ? gsl_odeiv2_driver_apply(d,&t,t+0.5,y) : gsl_odeiv2_driver_apply_fixed_step(d,&t,0.05,10,y);
+  }
+  gsl_odeiv2_driver_free(d);
+  res[0]=r.calls; res[1]=r.first_not_y; res[2]=r.out_is_in; res[3]=r.out_is_y; res[4]=r.t_outside; res[5]=t; res[6]=y[0]; res[7]=y[1];
+  return rc;
+}
+#endif
